@@ -1743,6 +1743,13 @@ pub fn dispatch(cmd: &str, rest: &[String], tier: &str, seed: u64) -> Option<i32
                 }
             }
         }
-        _ => None,
+        _ => c13dir::dispatch(cmd, rest, tier, seed),
     }
 }
+
+// C13 at directory level (`c13-dir`, `c13-dir-case`, helper `c13-dir-render`): src/dirs_c13.rs, a child module so
+// that it can reuse the trees, sources, oracle and observation code above
+#[path = "dirs_c13.rs"]
+mod c13dir;
+#[allow(unused_imports)]
+pub use c13dir::run_c13_dir;
